@@ -101,6 +101,8 @@ pub open spec fn eaten(pre: Cursor, post: Cursor) -> int { pre.rest().len() - po
 pub open spec fn total(c: Cursor) -> nat { utf8_len(c.tok()) + utf8_len(c.rest()) }
 pub open spec fn fits(c: Cursor) -> bool { total(c) <= 0x7fff_ffff }
 pub open spec fn peek(c: Cursor) -> char { if c.rest().len() > 0 { c.rest()[0] } else { '\0' } }
+/// two adjacent underscores among the first n characters of s
+pub open spec fn adj_us(s: Seq<char>, n: int) -> bool { exists|i: int| 0 <= i && i + 1 < n && i + 1 < s.len() && s[i] == '_' && #[trigger] s[i + 1] == '_' }
 /// C15: a time or imaginary unit is ahead (s, dt, ns, us, ms, µs, im): a numeric literal directly followed by one ends before it
 /// -- the unit is a token of its own
 pub open spec fn unit_ahead(s: Seq<char>) -> bool {
